@@ -1,0 +1,1 @@
+//! verif-hooks: elem area (read-only accessors; see mod.rs)
